@@ -37,7 +37,7 @@ func TestC13(t *testing.T) {
 	r := evid.Start(t, "C13", "exploration")
 	base := t.TempDir()
 
-	n := r.N(400, 15000)
+	n := r.N(400, 6000)
 	r.Cases("direct", n, 0, func(ci int, rng *rand.Rand) {
 		maxOps := 300
 		if rng.Intn(3) == 0 {
@@ -110,7 +110,7 @@ func TestC13(t *testing.T) {
 		"clock advances + virtual-time ticks after it, restarts before/after) x {rejoin disabled, enabled} x {minCompactSize 1, one of 64/1024/131072}; "+
 		"non-trivial = non-empty rejoin set at the moment of the leave and events or compactions after the leave. e2e: real nodes on simnet, "+
 		"non-trivial = at least one peer alive at the moment of the leave.",
-		r.N(500, 15000),
+		r.N(500, 6000),
 		"member names without '\\n' (that input class is the known C10 finding on the snapshot line format)",
 		"the moment of the leave is exact: synctest.Wait() before Leave(); no crash during Leave()",
 		"the same rejoin-after-leave setting is used before and after the restart")
@@ -173,7 +173,7 @@ func c13PostLeaveActivity(rng *rand.Rand, ops []c10Op) []c10Op {
 // ---------------------------------------------------------------- end to end
 
 func c13E2E(t *testing.T, r *evid.Run, base string) {
-	n := r.N(30, 600)
+	n := r.N(30, 400)
 	r.Cases("e2e", n, 0, func(ci int, rng *rand.Rand) {
 		dir, err := os.MkdirTemp(base, "e")
 		if err != nil {
@@ -207,15 +207,15 @@ func c13E2E(t *testing.T, r *evid.Run, base string) {
 		lateJoin := rng.Intn(2) == 0 // a new node joins the cluster after A has left
 		secondRound := rng.Intn(3) == 0
 		var (
-			oerr        string
-			atLeave     map[string]string
-			snapAlive   map[string]string
-			dials       = map[string]int{}
-			packets     int
-			mu          sync.Mutex
-			membersA2   int
-			snapAlive2  map[string]string
-			dials2      = map[string]int{}
+			oerr              string
+			atLeave           map[string]string
+			snapAlive         map[string]string
+			dials             = map[string]int{}
+			packets           int
+			mu                sync.Mutex
+			membersA2         int
+			snapAlive2        map[string]string
+			dials2            = map[string]int{}
 			lateJoinerSeenByA bool
 		)
 		synctest.Test(t, c10Settled(func() {
